@@ -18,10 +18,10 @@ facts regenerated from the current source satisfy them, and the `gen_*`
 theorems below are the instances for the current source.  For the pinned
 `SkipErrStmt` (`!p.See(sep) || p.See(EOF)`) the negation is proved.
 
-Outside the model (props.d/C08.json): the goroutine stack.  The recursion depth
-of `parseValue` is bounded by the token count (`parseValue_spec` runs with fuel
-`tokens + 2`), but Go's 1 GB stack limit is reached at about 8e5 nested
-brackets; that is a known finding, not covered by these theorems.
+Stack use: the model carries `p.depth` and records the nesting reached; with
+`maxNestingDepth = l` the nesting never exceeds `l` (`depth_bounded`), without a
+limit it follows the input (`unlimited_depth_unbounded`, the defect repaired
+by 1ff75e2).
 -/
 import PubModel.C08.Lemmas4
 import PubModel.C08.Obligations
@@ -73,9 +73,9 @@ theorem skipErrStmt_terminates (c : Cfg) (hc : GoodCfg c) (fuel : Nat) (s : PS) 
   exact ⟨h.ne_outOfFuel, h.ne_panic⟩
 
 /-- the repaired configuration -/
-def fixedCfg : Cfg := ⟨20, BExp.fixed, false, true, true⟩
+def fixedCfg : Cfg := ⟨20, BExp.fixed, false, true, true, some 10000⟩
 /-- the configuration of the pinned tree -/
-def pinnedCfg : Cfg := ⟨20, BExp.pinned, false, true, true⟩
+def pinnedCfg : Cfg := ⟨20, BExp.pinned, false, true, true, none⟩
 
 example : GoodCfg fixedCfg := ⟨by decide, by decide, by decide, by decide⟩
 example : ¬ StopsAtEof pinnedCfg.skipCond := by decide
@@ -106,14 +106,16 @@ example : decodeSeries fixedCfg ⟨[45], []⟩ (fuelOf 5) [0x66, 0x6f, 0x6f, 0x2
 /-- **Without the `InError` break `parseListEntries` diverges**: `[` followed by
     EOF keeps failing to parse an operand for ever (the hypothesis
     `GoodCfg.listBreaks` of the termination theorems is necessary). -/
-theorem list_without_break_diverges (c : Cfg) (hl : c.listBreaks = false) (s : PS)
-    (hcur : s.seeOp '[' = true) (hrest : s.rest = []) : ∀ fuel, parseValue c fuel s = .outOfFuel := by
+theorem list_without_break_diverges (c : Cfg) (hl : c.listBreaks = false) (d : Nat)
+    (hdeep : c.tooDeep d = false) (s : PS) (hcur : s.seeOp '[' = true) (hrest : s.rest = []) :
+    ∀ fuel, parseValue c fuel d s = .outOfFuel := by
   intro fuel
   cases fuel with
   | zero => rfl
   | succ n =>
     have hop : s.cur.kind = .op ∧ s.cur.op = 91 := by simpa [PS.seeOp] using hcur
-    have hnext : (s.next c).AtEof := by simp [PS.AtEof, PS.next, hrest, nextTok, PS.eofTok]
+    have hnext : ((s.next c).enter (d + 1)).AtEof := by
+      simp [PS.AtEof, PS.enter, PS.next, hrest, nextTok, PS.eofTok]
     have h1 : s.see .keyword = false := by simp [PS.see, hop.1]
     have h2 : s.see .str = false := by simp [PS.see, hop.1]
     have h3 : s.see .int = false := by simp [PS.see, hop.1]
@@ -122,21 +124,21 @@ theorem list_without_break_diverges (c : Cfg) (hl : c.listBreaks = false) (s : P
     have h6 : s.seeOp '-' = false := by simp [PS.seeOp, hop.2]
     have h7 : s.seeOp '{' = false := by simp [PS.seeOp, hop.2]
     unfold parseValue
-    simp only [h1, h2, h3, h4, h5, h6, h7, hcur, Bool.false_eq_true, if_false, if_true, Bool.or_self]
-    rw [listLoop_no_break_diverges c hl n n (s.next c) hnext]
+    simp only [h1, h2, h3, h4, h5, h6, h7, hcur, hdeep, Bool.false_eq_true, if_false, if_true, Bool.or_self]
+    rw [listLoop_no_break_diverges c hl n (d + 1) n _ hnext]
     rfl
 
-example : ∀ fuel, parseValue { fixedCfg with listBreaks := false } fuel
+example : ∀ fuel, parseValue { fixedCfg with listBreaks := false } fuel 0
     { cur := { kind := .op, op := 91, line := 1, col := 1 }, rest := [], eofLine := 1, eofCol := 1 } = .outOfFuel :=
-  list_without_break_diverges _ rfl _ (by decide) rfl
+  list_without_break_diverges _ rfl 0 (by decide) _ (by decide) rfl
 
 /-! ## the parser over any token stream -/
 
 /-- **`parseValue` terminates** on every token stream, with fuel two above the
     number of tokens not yet shifted; unless it ends in error state it shifted a token. -/
 theorem parseValue_terminates (c : Cfg) (hc : GoodCfg c) (fuel : Nat) (s : PS) (hm : s.m + 2 ≤ fuel) :
-    ∃ s', parseValue c fuel s = .ok s' ∧ s'.m ≤ s.m ∧ (s'.pe.jail = false → s'.m < s.m) := by
-  obtain ⟨s', h, h1, h2⟩ := parseValue_spec c hc.errMax_pos hc.listBreaks fuel s hm
+    ∃ s', parseValue c fuel 0 s = .ok s' ∧ s'.m ≤ s.m ∧ (s'.pe.jail = false → s'.m < s.m) := by
+  obtain ⟨s', h, h1, h2⟩ := parseValue_spec c hc.errMax_pos hc.listBreaks fuel 0 s hm
   exact ⟨s', h, h1.m_le, h2⟩
 
 /-- **`parseSeries` terminates** on every token stream and ends at EOF. -/
@@ -158,6 +160,44 @@ theorem series_value_means_clean (c : Cfg) (hc : GoodCfg c) (fuel : Nat) (s : PS
   simp only [Res.bind] at h
   injection h with h
   exact outcomeOf_value_clean r.p (hi hinv) _ _ _ _ _ h
+
+/-! ## nesting depth (stack use) -/
+
+/-- **The nesting is bounded by the limit, for every token stream**: with
+    `maxNestingDepth = l`, `parseValue` (entered at depth 0, as every entry point
+    does) and `parseSeries` never have more than `l` lists/objects open at the
+    same time, so at most `l` frames of `parseListEntries`/`parseObjectEntries`
+    and `l + 1` frames of `parseValue` are on the Go stack. -/
+theorem parse_depth_bounded (c : Cfg) (l : Nat) (hl : c.depthLimit = some l) (fuel : Nat) (s s' : PS)
+    (h0 : s.maxDepth ≤ l) (h : parseValue c fuel 0 s = .ok s') : s'.maxDepth ≤ l :=
+  parseValue_inv c (fun m => m ≤ l) (fun d => d ≤ l) (enter_bounded c l hl) fuel 0 s s' (Nat.zero_le _) h0 h
+
+theorem series_depth_bounded (c : Cfg) (l : Nat) (hl : c.depthLimit = some l) (fuel : Nat) (s : PS) (r : SS)
+    (h0 : s.maxDepth ≤ l) (h : parseSeries c fuel s = .ok r) : r.p.maxDepth ≤ l :=
+  parseSeries_inv c (fun m => m ≤ l) (fun d => d ≤ l) (Nat.zero_le _) (enter_bounded c l hl) fuel s r h0 h
+
+/-- **Without a limit the nesting is unbounded**: `k+1` opening brackets reach
+    nesting `k+1` (the pinned parser: an 800 KB input exhausts the 1 GB stack). -/
+theorem unlimited_depth_unbounded (c : Cfg) (hc : GoodCfg c) (hn : c.depthLimit = none) (k : Nat) :
+    ∃ s', parseValue c (k + 3) 0
+        { cur := lbTok, rest := List.replicate k lbTok, eofLine := 1, eofCol := k + 1 } = .ok s' ∧
+      k + 1 ≤ s'.maxDepth := by
+  obtain ⟨s', h, _⟩ := parseValue_spec c hc.errMax_pos hc.listBreaks (k + 3) 0
+    { cur := lbTok, rest := List.replicate k lbTok, eofLine := 1, eofCol := k + 1 }
+    (by simp [PS.m, lbTok])
+  refine ⟨s', h, ?_⟩
+  have := brackets_deep c hn k (k + 3) 0 _ s' (by simp [PS.seeOp, lbTok]) rfl h
+  omega
+
+example : ∃ s', parseValue { fixedCfg with depthLimit := none } 5 0
+    { cur := lbTok, rest := [lbTok, lbTok], eofLine := 1, eofCol := 3 } = .ok s' ∧ 3 ≤ s'.maxDepth :=
+  unlimited_depth_unbounded _ ⟨by decide, by decide, by decide, by decide⟩ rfl 2
+
+-- with limit 2 the third bracket is refused: [[[
+example : toJSON { fixedCfg with depthLimit := some 2 } ⟨[45], knownKeywords⟩ (fuelOf 3) [0x5b, 0x5b, 0x5b] =
+    .ok (.errors 1 ⟨"jsonx.tooDeep", 1, 3⟩ 3) := by decide
+example : parseDepth { fixedCfg with depthLimit := some 2 } ⟨[45], knownKeywords⟩ (fuelOf 3) [0x5b, 0x5b, 0x5b] false =
+    .ok 2 := by decide
 
 /-! ## the entry points, for every byte string -/
 
@@ -194,6 +234,26 @@ theorem value_or_error (bs : Bytes) :
   ⟨withParser_sat c g hc hg bs _ _ (fun s hm _ => decodeToks_sat c hc _ s hm),
    withParser_sat c g hc hg bs _ _ (fun s hm _ => seriesToks_sat c hc _ s hm),
    withParser_sat c g hc hg bs _ _ (fun s hm _ => toJSONToks_sat c hc _ s hm)⟩
+
+/-- **Bounded nesting for every byte string**: parsing `bs` as a value or as a
+    typed series returns, and never has more than `l` lists/objects open. -/
+theorem depth_bounded (l : Nat) (hl : c.depthLimit = some l) (bs : Bytes) (series : Bool) :
+    ∃ k, parseDepth c g (fuelOf bs.length) bs series = .ok k ∧ k ≤ l := by
+  unfold parseDepth
+  refine (jsonxTokens_sat g hg bs).bind ?_
+  intro r hr
+  have hm : (PS.init c r.1 r.2.1 r.2.2).m + 2 ≤ fuelOf bs.length := by
+    have := PS.init_m c r.1 r.2.1 r.2.2
+    unfold fuelOf; omega
+  have h0 : (PS.init c r.1 r.2.1 r.2.2).maxDepth ≤ l := Nat.zero_le _
+  simp only
+  split
+  · obtain ⟨x, hx, _⟩ := parseSeries_spec c hc.errMax_pos hc.listBreaks hc.stops hc.skips _ _ hm
+    rw [hx]
+    exact ⟨_, rfl, series_depth_bounded c l hl _ _ x h0 hx⟩
+  · obtain ⟨x, hx, _⟩ := parseValue_spec c hc.errMax_pos hc.listBreaks _ 0 _ hm
+    rw [hx]
+    exact ⟨_, rfl, parse_depth_bounded c l hl _ _ x h0 hx⟩
 
 end
 
@@ -244,6 +304,11 @@ theorem gen_value_or_error (bs : Bytes) :
     (∃ o, decodeSeries Jsonx.cfg Jsonx.lexCfg (fuelOf bs.length) bs = .ok o ∧ o.valueOrError) ∧
     (∃ o, toJSON Jsonx.cfg Jsonx.lexCfg (fuelOf bs.length) bs = .ok o ∧ o.valueOrError) :=
   value_or_error _ _ gen_cfg_good gen_exp_signs bs
+
+open PubModel.Gen in
+theorem gen_depth_bounded (bs : Bytes) (series : Bool) :
+    ∃ k, parseDepth Jsonx.cfg Jsonx.lexCfg (fuelOf bs.length) bs series = .ok k ∧ k ≤ Jsonx.depthLimit.getD 0 :=
+  depth_bounded _ _ gen_cfg_good gen_exp_signs _ gen_depth_limited.1 bs series
 
 open PubModel.Gen in
 theorem gen_strtoken_parse_terminates (bs : Bytes) :
